@@ -81,7 +81,11 @@ Inductive cname :=
 | KSeqMap | KSeqAccept | KParMap | KParAccept | KParMapTry | KTryParMap
 | KCollMap | KCollReduce | KTryCollReduce
 | KMergeLeft | KMergeRight | KMergeLeftMap | KMergeLess
-| KMultiUse | KMultiUseInner | KTryMultiUse.
+| KMultiUse | KMultiUseInner | KTryMultiUse
+(* the fault sits in a still-lazy list nested in the value a consumer / closure / the program returns;
+   the harness evaluates results deeply *)
+| KMuRetMapLazy | KMuRetListLazy | KMuRetMapMapLazy | KTryMuRetMapLazy
+| KMapRetLazy | KCloRetLazy | KTopMapLazy | KTopListLazy | KTopMapMapLazy.
 
 (* stage 0 is the stage whose switch to parallel mode was observed; later stages run fast closures *)
 Definition build (k : cname) (f : fault) : prog :=
@@ -103,12 +107,28 @@ Definition build (k : cname) (f : fault) : prog :=
   | KMultiUse => PMultiUse [PCall l; PLeaf FValue]
   | KMultiUseInner => PMultiUse [PCall (PStage 1 (PCall l)); PLeaf FValue]
   | KTryMultiUse => PTry (PMultiUse [PCall l; PLeaf FValue])
+  | KMuRetMapLazy | KMuRetListLazy | KMuRetMapMapLazy => PMultiUse [PCall (PStage 1 (PCall l)); PLeaf FValue]
+  | KTryMuRetMapLazy => PTry (PMultiUse [PCall (PStage 1 (PCall l)); PLeaf FValue])
+  | KMapRetLazy | KCloRetLazy | KTopMapLazy | KTopListLazy | KTopMapMapLazy => PStage 1 (PCall l)
   end.
 
 (* a try with a constant catch value around everything *)
 Definition try_outermost (k : cname) : bool :=
   match k with
-  | KTry | KTryClo | KTryInClo | KTryParMap | KTryCollReduce | KTryMultiUse => true
+  | KTry | KTryClo | KTryInClo | KTryParMap | KTryCollReduce | KTryMultiUse | KTryMuRetMapLazy => true
+  | _ => false
+  end.
+
+(* no try/catch anywhere: the evaluation (incl. the deep evaluation of the result) must hit the fault *)
+Definition no_try (k : cname) : bool :=
+  negb (try_outermost k) && match k with KParMapTry => false | _ => true end.
+
+(* fault sources that are faults by construction (host function, throw, runaway recursion) *)
+Definition surely_faulting (l : leafsrc) : bool :=
+  match l with
+  | LFault FValue => false
+  | LFault (FRecThrough _ _ _ _) => false      (* bounded recursion: a value when the guard does not count the levels *)
+  | LFault _ => true
   | _ => false
   end.
 
@@ -151,14 +171,22 @@ Definition c05_im (c : c05_case) : bool :=
       end
   end.
 
-(* the property on the observation: the process survived, and a try with a constant catch value
-   around the program never ends in an error (every fault is catchable) *)
+(* the property on the observation: the process survived, a try with a constant catch value
+   around the program never ends in an error (every fault is catchable), and without a try a fault
+   source that is reached ends in an error *)
+(* recursion deeper than the guard's 10000 slots must be stopped by the guard *)
+Definition guard_must_fire (l : leafsrc) : bool :=
+  match l with
+  | LFault (FRecThrough _ slots _ depth) => negb (slots =? 0) && ((guard_limit + 1) / slots <? depth)
+  | _ => false
+  end.
+
 Definition c05_is (c : c05_case) : bool :=
   match c with
-  | (_, _, k, _, _, o) =>
+  | (_, l, k, _, _, o) =>
       match o with
       | ODied => false
       | OErr => negb (try_outermost k)
-      | _ => true
+      | OVal | OCatch => negb ((no_try k && surely_faulting l) || guard_must_fire l)    (* a fault must not vanish into a (truncated) value *)
       end
   end.
